@@ -34,11 +34,14 @@ pub fn drive(a: &Args) -> i32 {
         };
         let spec = ClusterSpec {
             n_real: rng.gen_range(2..=max_nodes),
-            n_fake: 0,
+            // every third run has lying endpoints that name peers at addresses where a dial never completes, and a
+            // transport connection timeout far above the request timeout: only the lookup's own dial bound saves it
+            n_fake: if seg % 3 == 1 { rng.gen_range(1..=2) } else { 0 },
             k: 8,
             request_timeout: Duration::from_millis(TIMEOUT_MS),
             delay_max_ms: [0, 20, 300, 1500, 2900][rng.gen_range(0..5)] / scale,
             p_silent: 0.0,
+            conn_timeout_mult: if seg % 3 == 1 { 200 } else { 1 },
         };
         let hub_rng = common::rng(20_000 + seg);
         let mut events: Vec<Value> = Vec::new();
@@ -51,6 +54,13 @@ pub fn drive(a: &Args) -> i32 {
                     std::process::exit(2)
                 }
             };
+            if !c.fakes.is_empty() {
+                for i in 500..900 {
+                    c.hub.add_blackhole(&net::addr_for(i));
+                }
+                let mut invented = Vec::new();
+                crate::c01::add_liars(&c, &mut rng, &mut invented).await;
+            }
             let n = c.reals.len();
             let start = tokio::time::Instant::now();
             let ms = move || start.elapsed().as_millis() as u64;
